@@ -405,8 +405,7 @@ Qed.
 Lemma define_step_spec strict creator label inp env out vol nd s :
   Inv hh s ->
   (strict = true -> find_node creator s <> None /\
-                    creator_kind_ok KStep (fst creator) = true /\ NoDup out /\ NoDup vol /\
-                    mem_key creator (rec_products (KStep, label) s) = false) ->
+                    creator_kind_ok KStep (fst creator) = true /\ NoDup out /\ NoDup vol) ->
   wpg strict (define_step creator label inp env out vol nd s) (fun s' => Inv hh s').
 Proof.
   intros HI Hst. unfold define_step. set (k := (KStep, label)).
@@ -415,10 +414,11 @@ Proof.
   apply is_some_true in Ec.
   destruct (key_eqb creator root_key && root_has_step s); [exact I|].
   destruct (key_eqb creator k) eqn:Eself; [exact I|]. apply key_eqb_neq in Eself.
+  destruct (mem_key creator (rec_products k s)) eqn:Ecyc; [exact I|].
   assert (Hnew : is_detached k s = true ->
             wpg strict (define_step_new creator label inp env out vol nd s) (fun s' => Inv hh s')).
   { intros Hd. apply define_step_new_spec; [exact HI|]. intros Hs.
-    destruct (Hst Hs) as [S1 [S3 [S4 [S5 _]]]]. split; [|split; [exact Hd | split; assumption]].
+    destruct (Hst Hs) as [S1 [S3 [S4 S5]]]. split; [|split; [exact Hd | split; assumption]].
     split; [exact S1 | split; [exact Eself | exact S3]]. }
   destruct (find_node k s) as [n|] eqn:Hn.
   2:{ apply Hnew. rewrite is_detached_findn. unfold find_node in Hn. fold (findn k (nodes s)) in Hn.
@@ -431,8 +431,8 @@ Proof.
   (* full recycle *)
   apply wpg_bind. eapply wpg_weaken.
   { apply (@node_reattach_spec hh); [exact HI | reflexivity |]. intros Hs.
-    destruct (Hst Hs) as [S1 [S3 [_ [_ S6]]]]. split; [rewrite Hn; discriminate|]. split; [exact S1|].
-    split; [exact Hdk|]. split; [exact Eself | split; [exact S3 | exact S6]]. }
+    destruct (Hst Hs) as [S1 [S3 _]]. split; [rewrite Hn; discriminate|]. split; [exact S1|].
+    split; [exact Hdk|]. split; [exact Eself | split; [exact S3 | exact Ecyc]]. }
   intros s1 [I1 [NO1 _]].
   set (g := fun r : srow => mkS (sl r) (sst r) nd (sdef r) (sdc r) 0).
   destruct (upd_step_inv label g s1 I1) as [I2 SO2]; [reflexivity | |].
